@@ -85,6 +85,12 @@ func (s *Stack) Pop() *Scanner {
 	return e
 }
 
+// Contains returns true if a scanner of the file with the given name is in the stack.
+func (s *Stack) Contains(name string) bool {
+	_, ok := s.uniqueFiles[name]
+	return ok
+}
+
 // Empty returns true is stack is empty.
 func (s *Stack) Empty() bool {
 	return len(s.stack) == 0
